@@ -164,9 +164,34 @@ func checkC16(c *core.Ctx) {
 					}
 				}
 				for k, wt := range ws {
-					tr, _, _, _, _ := tensor.VerifGradState(*wt.Value)
-					if !tr {
-						return core.Fail("default parameter %d is not tracked", k)
+					tr, dirty, g, targets, _ := tensor.VerifGradState(*wt.Value)
+					if !tr || dirty || g != nil || len(targets) != 0 {
+						return core.Fail("parameter %d of a newly constructed layer is not a fresh tracked leaf: tracked=%v spent=%v has gradient=%v edges=%d", k, tr, dirty, g != nil, len(targets))
+					}
+				}
+				// a second layer of the same size has its own parameter tensors,
+				// and both layers train independently
+				fc2, err := layers.NewFC(&layers.FCConfig{Inputs: D, Outputs: O})
+				if err != nil {
+					return core.Fail("NewFC default (second layer): %v", err)
+				}
+				if fc2.Weight == fc.Weight || fc2.Bias == fc.Bias || fc.Weight == fc.Bias {
+					return core.Fail("two newly constructed layers (or W and B of one layer) share a parameter tensor object")
+				}
+				for li, l := range []*layers.FC{fc, fc2} {
+					xin := rt.Make(enum.Generic([]int{1, D}, uint64(822+li), 0.5, 3, true), true)
+					out, err := l.Forward(xin)
+					if err != nil {
+						return core.Fail("Forward: %v", err)
+					}
+					if err := tensor.BackPropagate(out); err != nil {
+						return core.Fail("BackPropagate: %v", err)
+					}
+					if l.Weight.Gradient() == nil || l.Bias.Gradient() == nil || xin.Gradient() == nil {
+						return core.Fail("layer %d of two default-initialised layers used one after the other: W, B or the tracked input received no gradient", li+1)
+					}
+					if ok, msg := core.Close(rt.Read(l.Bias.Gradient()), ref.FullOf([]int{O}, 1), 10); !ok {
+						return core.Fail("layer %d bias gradient at batch size 1: %s", li+1, msg)
 					}
 				}
 				x := enum.Generic([]int{2, D}, 821, 0.5, 3, true)
